@@ -61,11 +61,16 @@ class Env:
         self.iscsi_contexts = []
         self.iscsi_urls = []
         self.opens = []
+        self.lun = 0            # LUN the URL stub reports (may be a solver variable)
+        self.open_error = None  # exception the next open() raises (consumed), e.g. PermissionError
 
     # ---- filesystem
     def open(self, name, mode="r", buffering=-1, **kw):
         self.log.append(("open", name, mode))
         self.opens.append((name, mode, buffering))
+        if self.open_error is not None:
+            e, self.open_error = self.open_error, None
+            raise e
         if self.cur_inode is None:
             raise FileNotFoundError(2, "No such file or directory", name)
         h = Handle(self, name, mode, self.cur_inode, buffering)
@@ -148,7 +153,7 @@ class URL:
         ENV.log.append(("iscsi.URL", url))
         self.portal = "portal-of:" + str(url)
         self.target = "target-of:" + str(url)
-        self.lun = 0
+        self.lun = ENV.lun
 
 
 class Task:
